@@ -2,44 +2,46 @@
 # Regenerates /verif/MANIFEST.json from the table below (kept next to the checks so that it stays current).
 import json
 props=[json.loads(l) for l in open('/verif/properties.jsonl')]
-TECH="bounded symbolic execution of the real Go SSA into SMT (cvc5, cross-checked with z3), counterexamples replayed natively"
+TECH="bounded symbolic execution of the real Go SSA into SMT (cvc5, cross-checked with z3), counterexamples replayed against the natively compiled code (harnesses that depend on stubbed library calls are model-only and say so)"
+# (what is decided, what is trusted / outside); harness names and the stated bounds (//vf:assume lines) are appended
+# from the harness files so that this file cannot drift from the checks.
 CLAIMED={
- "C08":("Every path of ReadHeader/readV1Header/readV2Header and the Conn accessors is executed symbolically for all header bytes within the stated bounds (v2 length 0..40/64 with every command/family byte, payload tails, segmentations; v1 address pool x symbolic ports; 16/24 arbitrary bytes; deadline event) and every assertion is discharged by the solver; bounded, not a proof.",
-        "Trusted: go/ssa, the symgo interpreter and its leaf models (validated by native replay of witnesses), cvc5/z3. Out: real timers and sockets, concurrent callers of one Conn, headers beyond the bounds."),
- "C16":("ParseHeader/String/Apply run symbolically: all rule strings up to 6/9 bytes (regexps encoded from the real regexp/syntax program, validated against the real package), all rule lists of <=2/3 rules over pooled names with solver-decided letter case on maps of <=2 keys, compared with an independent reference semantics.",
-        "Trusted: engine + regexp/CanonicalHeaderKey models (self-validated), cvc5/z3. Out: longer rules/lists, non-ASCII, dispatch by message kind (command/run), wire effects."),
- "C17":("NewRegexpMatcherFromList/Match/Inverse run on every list of <=2/3 rules over a 14-pattern pool x include/exclude marks; the combined pattern built by the real code is compiled by the real regexp/syntax and matched against a symbolic host (all ASCII strings of length <=4/7 decided by the solver) and compared with per-rule evaluation, negation and list reversal.",
-        "Trusted: engine, the regexp term encoding (validated per pattern object against the real package on all strings <=4 over a pattern alphabet), cvc5/z3. Out: patterns outside the pool, longer hosts, non-ASCII."),
- "C18":("ViaModifier.ModifyRequest runs symbolically for every boundary (4/8 hex chars), 0..2/3 Via lines of <=10/12 arbitrary printable bytes incl. same-name peer elements and three protocol versions: loop <=> some line contains the instance tag => 400 + Close; otherwise all earlier elements kept in order with the own element last.",
-        "Trusted: engine + string models, cvc5/z3. Out: longer chains/lines, the pipeline part (400 reaches the client, nothing contacted upstream) is under C04/C12, real two-proxy loops."),
- "C09":("One arbitrary flow-control operation (WINDOW_UPDATE stream/connection, SETTINGS_INITIAL_WINDOW_SIZE up/down, DATA from a processor, zero-cost frame) from an arbitrary quiescent pre-state of the real relay (symbolic windows incl. negative, queues <=2) is checked against an RFC 7540 6.9 credit ledger (inductive step); DATA/header splitting for symbolic max frame size; WINDOW_UPDATE credit for DATA frames parsed by the real x/net Framer from symbolic bytes incl. padding.",
-        "Trusted: engine, interpreted x/net/http2 Framer, cvc5/z3. Out: interleavings finer than flowMu critical sections, writer goroutine/channel capacity, window overflow past 2^31-1, wire bytes written by the Framer."),
- "C10":("processFrame is driven with frames parsed by the real Framer: HEADERS/PUSH_PROMISE + 0..2 CONTINUATION at every split of a valid HPACK block (real hpack decoder), symbolic flags/priority/promised id; RST_STREAM, PRIORITY, PING, GOAWAY, SETTINGS(+ack), WINDOW_UPDATE, DATA with symbolic payloads relayed field-for-field; queued header blocks written and re-parsed; client preface under every 2-segment split. Per-stream FIFO and no-stranding are decided in the C09 step harness.",
-        "Trusted: engine, interpreted x/net http2+hpack, cvc5/z3. Out: HPACK re-encoding/table-size changes, relayFrames goroutines and eventual delivery through the writer goroutine, gRPC layers, multiple interleaved streams beyond the C09 step."),
- "C04":("parseBasicAuth/AuthenticatedRequest for every header value up to 14/18 bytes and symbolic 1..2-byte credentials against a reference base64 decoder; isLocalhost on every spelling of loopback/unspecified literals and solver-decided letter case; time-frame matching for symbolic weekday/hour/entries; the real modifier stack and error path under all 16 on/off combinations of the four controls; the whole connection loop (real http.ReadRequest, modifiers, response writer) over two-request connections with a scripted next hop: refused requests cause 0 round trips and 0 dials and carry the right status/challenge.",
-        "Trusted: engine + base64/ConstantTimeCompare/regexp models (differential self-test on every run), interpreted net/http wire code, cvc5 with z3 fallback. Out: TLS/MITM transport, DNS-level aliases of loopback, deny-domain regexps (C17), longer headers/credentials."),
- "C01":("The real connection loop (http.ReadRequest, scheme fix-up, modifier stack, round trip hand-off) is executed symbolically over scripted request bytes: every list of <=2/3 header fields from a 19-entry pool (end-to-end, hop-by-hop, Connection nominations, Via, X-Forwarded-*, User-Agent) with symbolic values, GET/POST, absolute/origin form with escaped query, HTTP/1.0/1.1, no body / Content-Length / chunked (1-2 chunks, symbolic bytes), first or second request of a keep-alive connection; what the recording next hop receives is compared field by field with the reference.",
-        "Trusted: engine, interpreted net/http request parser, cvc5/z3. Out: http.Transport serialisation and Accept-Encoding, upstream-proxy and MITM transports (same modifier path), site credentials/header rules (C06/C16), bodies near 4 KiB/32 KiB buffers, longer header lists."),
- "C02":("The real connection loop writes the responses of a scripted origin (status pool, <=2 header fields from a pool with symbolic values, 3 symbolic body bytes delimited by Content-Length / unknown length / with trailer, GET/HEAD, HTTP/1.0 and 1.1 clients, two exchanges per connection) and the captured bytes are parsed back: k-th response answers k-th request, end-to-end fields and body intact, nothing beyond the messages; the manual head writer for HEAD/1xx/204/304 (symbolic reason, fields, trailers) ends in exactly one empty line; the pattern flush writer flushes whenever a chunk/event boundary completes, also split across writes.",
-        "Trusted: engine, interpreted net/http writer and reader, cvc5/z3. Out: gzip handling in Transport, timing of delivery, bodies around 4 KiB/32 KiB, response-header rules (C16), the http.Handler variant."),
- "C12":("errorResponse and its 12 classifiers on every error of a constructor pool (OpError timeout/non-timeout, TLS record header with symbolic bytes, certificate, alert, carried status, own refusals, cancelation, unclassified; bare/%w/url.Error wrapped) against the status table; faults injected at the next hop of the real connection loop (round-trip error, CONNECT dial failure, client write failure after k bytes): one complete parseable error response per request or a close; arbitrary client byte streams (6 prefixes + 4/8 symbolic bytes) through the real request parser never panic and leave a well-formed or empty output and zero open connections.",
-        "Trusted: engine, interpreted net/http, error-chain model (errors.Is/As over real Unwrap/Is/As methods), cvc5/z3. Out: truncation of real upstream replies inside http.Transport, TLS listeners, process-level liveness on real sockets, longer hostile streams, non-ASCII junk."),
- "C03":("A CONNECT runs through the real connection loop (handleConnectRequest, connect / dialvia CONNECT to an upstream HTTP proxy with the real byteReader and http.ReadResponse, tunnel, drainBuffer, copier.copy, closeWriter) between scripted client and target/upstream connections: symbolic payloads of 0..4/0..8 bytes each way incl. data coalesced with the request head and data sent right behind the upstream's reply, 1-byte or whole-buffer reads: each side receives exactly the other's bytes once in order, end-of-stream after the last byte, both sockets closed.",
-        "Trusted: engine, single schedule per tunnel (one direction after the other; a goroutine that blocks is parked), cvc5/z3. Out: interleavings of the two copy directions, FIN ordering on real sockets, the forced close after the grace period, SOCKS5, TLS termination, 101 Upgrade tunnels, large payloads."),
- "C13":("Two exchanges per connection through the real connection loop (forwarded GET/HEAD, 407 refusal, failed round trip, completed CONNECT tunnel, failed CONNECT dial, client write failure after k bytes) with ghost completion hooks: reads == completions on every path, reported status == status on the wire, open-connection count and registry return to zero; conntrack: OnClose exactly once for 1..3 sequential closes and byte counters equal the bytes transferred for symbolic read/write sizes.",
-        "Trusted: engine, cvc5/z3. Out: concurrent double close (sync.Once), Prometheus vectors themselves and the +1/-1 label pairing in middleware.Prometheus, connfu pass-through, MITM hand-off and 101 upgrades."),
- "C05":("pacProxy + pac result parsing for every ASCII answer string up to 8/12 bytes (and a pool of well-formed ones) against an independent reference of the documented mapping; configureProxy wrappers for none/static(http,https,socks5,userinfo)/PAC x direct-domains verdict x proxy-localhost mode x target pool x GET/CONNECT on the function object shared by Transport and CONNECT; the CONNECT path through the real loop dials exactly the selected hop (direct, upstream HTTP proxy, unsupported type => nobody); connect-to rules: every list of <=2/3 rules over host/port pools incl. empty fields.",
-        "Trusted: engine, interpreted net.SplitHostPort/JoinHostPort and net/url, cvc5/z3. Out: what http.Transport does with the URL for plain HTTP, the h2-over-MITM dial path, goja evaluation of the script (C14), bracketed IPv6 in PAC answers, non-numeric ports."),
- "C06":("CredentialsMatcher.MatchURL on all 64 subsets of a 6-entry table (exact, *:port, host:*, *:*) x scheme x host x port against the documented precedence; the real connection loop with a recording next hop: 0..2 client Proxy-Authorization lines with symbolic values, any spelling, optionally nominated by Connection, never reach the origin request or the CONNECT sent to an upstream proxy; the CONNECT to the upstream carries exactly that proxy's credentials (URL userinfo, else matching table entry); site credentials only for a matching target and never replacing a client Authorization.",
-        "Trusted: engine, interpreted net/http + dialvia, cvc5/z3. Out: Proxy-Authorization added by http.Transport itself for plain HTTP via proxy, PAC-selected proxies with table credentials (same code path as static), Kerberos."),
- "C11":("Sequential path facts of the real connection loop with shutdown beginning before service / while a request is at its origin / between two requests / never: in-flight exchange completes with Connection: close, a request arriving after shutdown began is not forwarded, a connection accepted after shutdown began is closed unserved, socket closed and open-connection count zero on every path; Shutdown returns nil only when drained and the context error otherwise; Close closes registered sockets; Serve stops accepting. Reduced level: one schedule, concrete scripts.",
-        "Trusted: engine. Out (the quantifier this property is mostly about): every timing/interleaving of Shutdown/Close relative to accept, registration, reads and round trips on real goroutines; the polling timer; runctx/listener close in forwarder.run."),
- "C15":("The accept loop is executed with connections that record the calling goroutine of every method: no method of an accepted connection runs on the accept goroutine, temporary accept errors do not end the loop; readRequest with symbolic idle / read-header / read timeouts and the model clock: every deadline handed to SetReadDeadline lies between (clock before + limit) and (clock after + limit), the idle/header fall-backs to ReadTimeout hold, and once the head is read the deadline is the whole-request deadline or none.",
-        "Trusted: engine, time model (arbitrary non-decreasing instants), cvc5/z3. Out: that the kernel enforces deadlines, TLS/MITM handshake timeouts, the PROXY header timeout (decided under C08), real stall scenarios and probe latency."),
- "C19":("Self-composition over the redacting helpers registered for the secret-bearing flags (RedactUserinfo, RedactHostPortUser, RedactURL, RedactBase64): two values differing only in a symbolic 1..3-byte password print identically while user, host and port stay visible; data: values collapse to the placeholder. Structural side condition (SSA call-site scan, not a solver result): --basic-auth/--api-basic-auth, --proxy and --credentials are registered with these helpers.",
-        "Trusted: engine, interpreted net/url, cvc5/z3. Out (most of the statement): the real binary's start-up log, /configz, request log lines and error responses; viper/cobra/env plumbing; DescribeFlags."),
- "C20":("NewListener/Accept/Conn.Read/Write with symbolic int64 limits and transfer sizes against a limiter ledger: a positive read limit creates the limiter (rate = limit, burst >= 4 MiB) charged for bytes written to clients and only those, likewise the write limit for bytes read; non-positive => no limiter; each positive byte count charged once after the transfer; limiters shared by all connections; data, n and err passed through. Glue only.",
-        "Trusted: engine, stubs for rate.NewLimiter / WaitN / connfu.CombineWithConfig (model-only harness, no native replay), cvc5/z3. Out (the bound the statement is about): the x/time/rate token bucket, clocks, real throughput; the flag-to-argument order in net.go."),
+ "C01":("What the next hop receives equals what the client sent up to the documented differences: the real connection loop (http.ReadRequest, scheme fix-up, modifier stack, hand-off to the round tripper) is executed symbolically over scripted request bytes, directly and inside an intercepted tunnel (plaintext, and as a decrypted TLS session under the transparent-TLS model).",
+        "Trusted: engine, interpreted net/http request parser, cvc5/z3. Out: http.Transport serialisation and Accept-Encoding, the upstream-proxy transport, real TLS, bodies near the 4 KiB/32 KiB buffers."),
+ "C02":("Responses of a scripted origin pass through the real connection loop and are parsed back by an HTTP/1 client parser: status, end-to-end fields, body bytes, trailers, framing per client version, k-th response for k-th request, nothing beyond the messages; incremental delivery of event streams and chunked bodies is decided by observing what the client holds each time the proxy asks the origin for more.",
+        "Trusted: engine, interpreted net/http writer and reader, cvc5/z3. Out: gzip handling in Transport, wall-clock timing, bodies around 4 KiB/32 KiB, the http.Handler variant."),
+ "C03":("CONNECT and 101-upgrade tunnels through the real connection loop between scripted endpoints: every byte once and in order incl. early data on both sides, end-of-stream after the last byte, both sockets closed, no request-phase deadline left armed; through an upstream HTTP proxy (and an https one under the transparent-TLS model); with both copy directions alive at once - blocking endpoints driven by the harness in all 6 orders of (send, half-close) x 2 endpoints, and a >16 KiB chunk pending in one direction while the other carries data.",
+        "Trusted: engine incl. its cooperative scheduler (one schedule per path; event order chosen by the harness and enforced natively too), cvc5/z3. Out: preemption inside a copier, real sockets and FIN ordering, the forced close after the grace period, SOCKS5, real TLS."),
+ "C04":("Access control is complete: credential parsing against a reference decoder, localhost spellings incl. hosts-file aliases through the real constructor, time frames, all 16 combinations of the four controls through the real modifier stack and error-response path, two requests of 7 kinds on one connection, and requests inside an intercepted tunnel (plaintext and transparent-TLS).",
+        "Trusted: engine + base64/ConstantTimeCompare/regexp models (differential self-test on every run), interpreted net/http, cvc5/z3. Out: real TLS, DNS-level aliases of loopback, deny-domain regexps themselves (C17)."),
+ "C05":("Routing follows the configuration: PAC answer parsing and mapping against an independent reference, the ProxyFunc wrappers for none/static/PAC x direct-domains x localhost modes, CONNECT dial targets, connect-to rules on all rule tables of <=2 rules.",
+        "Trusted: engine, interpreted net/url and net.SplitHostPort, cvc5/z3. Out: what http.Transport does with the URL for plain HTTP, goja evaluation of the script (C14), the h2-over-MITM dial."),
+ "C06":("Credentials stay on their hop: the credentials matcher on all 64 subsets of a 6-entry table against the documented precedence; the real connection loop with a recording next hop and a scripted upstream proxy (static with/without userinfo, table entry, PAC-selected) for GET and CONNECT.",
+        "Trusted: engine, interpreted net/http + dialvia, cvc5/z3. Out: Proxy-Authorization added by http.Transport itself for plain HTTP via proxy, Kerberos."),
+ "C08":("Every path of the PROXY-protocol reader and the Conn wrapper for all header bytes within the bounds: v1/v2 parsing, segmentations, truncation, oversize, garbage, the header timeout, two connections in sequence (no aliasing), every first operation (RemoteAddr/LocalAddr/Read/Write/ReadFrom/WriteTo/Header), and two goroutines using one connection before the header has arrived.",
+        "Trusted: engine incl. scheduler and sync.Pool/mutex models, cvc5/z3. Out: real timers and sockets, headers beyond the bounds, preemptive interleavings."),
+ "C09":("Flow control of the h2 relay as an inductive step: one arbitrary operation from an arbitrary quiescent pre-state (symbolic windows incl. negative, queues, with or without existing streams) against a ledger; DATA splitting, header fragment sizes through the real hpack encoder against symbolic max frame sizes, WINDOW_UPDATE credit for padded frames.",
+        "Trusted: engine, interpreted x/net http2+hpack, cvc5/z3. Out: window overflow past 2^31-1, interleavings finer than the flowMu critical sections."),
+ "C10":("Stream fidelity of the h2 relay: HEADERS/PUSH_PROMISE with 0..2 CONTINUATION at every split of a valid HPACK block, every other frame type dispatched with symbolic payloads, the client preface in segments, delivery of held-back DATA and a reset queued behind it once windows permit, and the relay loop itself (both relayFrames goroutines wired as Config.Proxy wires them) over scripted connections.",
+        "Trusted: engine incl. scheduler, interpreted x/net http2+hpack, cvc5/z3. Out: the TLS dial of Config.Proxy, gRPC layers, many interleaved streams beyond the C09 step."),
+ "C11":("Graceful shutdown: four placements of the shutdown signal x GET/CONNECT on one connection, three connections in different phases, shutdown during a tunnel, and Shutdown on its own goroutine (real polling loop) against an exchange held at the origin and a connection arriving meanwhile.",
+        "Trusted: engine incl. scheduler/mutex/timer models. Out: preemptive interleavings of Shutdown with registration, runctx and listener close in forwarder.run, real sockets."),
+ "C12":("Faults beyond the proxy become one clean error response or a close: the error classifiers on a pool of error shapes and wrappings, 4 fault points through the real connection loop incl. mid-body failures on all three response write paths, a cut upstream CONNECT rejection, and arbitrary junk from the client (also inside an intercepted tunnel).",
+        "Trusted: engine, interpreted net/http, error-chain model, cvc5/z3. Out: truncation inside http.Transport, real TLS listeners, process-level liveness on real sockets, longer hostile streams."),
+ "C13":("Accounting is conserved: two/three exchanges of 8 kinds (incl. tunnel, failed dial, MITM hand-off, client write failure) with completion hooks; the hooks configureProxy itself binds to the metrics; the Prometheus label pairing; conntrack close-once and byte counters for transfers that fail after moving bytes; listener and dialer gauges with retries and tracking modes.",
+        "Trusted: engine, ledger stubs in place of the Prometheus client for the model-only harnesses, cvc5/z3. Out: concurrent double close beyond sync.Once, the Prometheus client itself, connfu pass-through."),
+ "C15":("Stalled clients: nothing runs on the accept goroutine; every read deadline is within [phase start + limit, now + limit] for symbolic timeouts across two requests; no write deadline is armed while the origin is slow; a peer whose accessors block does not delay another client (two goroutines, real mutex model, timeout at quiescence).",
+        "Trusted: engine incl. scheduler, time model (arbitrary non-decreasing instants), cvc5/z3. Out: kernel enforcement of deadlines, TLS/MITM handshake timeouts, the PROXY header timeout (decided under C08), wall-clock latency."),
+ "C16":("Header rewrite rules: ParseHeader/String round trip against a reference grammar for all short rule strings, Apply on all rule lists over pooled names with solver-decided letter case against a reference, dispatch by message kind.",
+        "Trusted: engine + regexp/CanonicalHeaderKey models (self-validated), cvc5/z3. Out: longer rules/lists, non-ASCII; one open finding (non-canonical map keys)."),
+ "C17":("Domain rule lists: NewRegexpMatcherFromList/Match/Inverse on every list over a 15-pattern pool x include/exclude marks against each rule compiled on its own, symbolic hosts.",
+        "Trusted: engine, the regexp term encoding (validated per pattern object against the real package), cvc5/z3. Out: patterns outside the pool, longer hosts, non-ASCII."),
+ "C18":("Loop detection: ViaModifier.ModifyRequest for every boundary, Via lines of arbitrary printable bytes incl. same-name peers and three protocol versions: loop <=> some line contains the instance tag.",
+        "Trusted: engine + string models, cvc5/z3. Out: longer chains/lines, real two-proxy loops (the 400 path is under C04/C12)."),
+ "C19":("Secrets in diagnostics, as non-interference (self-composition: two runs differing only in the secret must produce identical output): the redaction helpers, the error response and start-up log lines of a proxy with a password-bearing upstream whose tunnel fails in 5 ways, request log lines in the four named modes; plus an SSA scan that the four secret-bearing flags use redacting values.",
+        "Trusted: engine, interpreted net/url and fmt model, cvc5/z3. Out: the real binary's start-up dump and /configz (cobra/viper), log lines of failed exchanges (not named by the property)."),
+ "C20":("Listener bandwidth limits, glue only: each limit creates the limiter of its own direction with rate = limit and burst >= 4 MiB, every transfer is charged once to its direction's limiter, one bucket per direction shared by all connections, data passes unchanged.",
+        "Trusted: engine, ledger stubs for rate.NewLimiter/WaitN (model-only). Out (the bound the statement is mostly about): the x/time/rate token bucket, clocks, real throughput."),
 }
 NA={
  "C07":"the statement is about X.509 validity, chain building and TLS handshakes under concurrent cache eviction (crypto/x509, crypto/tls, freelru): none of it can be encoded by the executor; only the template-selection kernel could be, and a claim that thin would misrepresent the property",
@@ -55,9 +57,17 @@ for p in props:
     pid=p["id"]
     if pid in CLAIMED:
         text,note=CLAIMED[pid]
+        import glob,re
+        hs=[];assume=[]
+        for f in sorted(glob.glob('/verif/harness/%s/*.go'%pid)):
+            for line in open(f):
+                mm=re.match(r'func (vfH_[A-Za-z0-9_]+)\(',line)
+                if mm: hs.append(mm.group(1))
+                if line.startswith('//vf:assume '): assume.append(line[len('//vf:assume '):].strip())
+        text=text+' Harnesses: '+', '.join(hs)+'. Stated bounds: '+' | '.join(assume)
         m["checks"].append({"property_id":pid,"quick_cmd":"./check.sh %s quick"%pid,"thorough_cmd":"./check.sh %s thorough"%pid,
           "evidence_file":"/verif/evidence/%s.json"%pid,"replay_cmd_template":"sh {path}/replay.sh","engine":"symgo",
-          "level_claimed":{"category":"model_checking","text":text,"design_ref":"DESIGN.md section 4 "+pid},
+          "level_claimed":{"category":"model_checking","text":text,"design_ref":"DESIGN.md section 4 "+pid+" and section 8.3"},
           "level_note":note,"technique":TECH})
     else:
         m["not_applicable"].append({"property_id":pid,"reason":NA.get(pid,"check not built yet in this session (work in progress; see DESIGN.md section 4 for the plan)")})
